@@ -178,6 +178,8 @@ func TestVerifC09_Match(t *testing.T) {
 		if long {
 			file = v09LongLine(file, c.n(0, 40, "longAt"), c.n(0, 3, "longHow"))
 		}
+		ln := c.longNames(rules, qs) // drawn after everything else
+		qs = append(qs, ln...)
 		rs := v09Build(file, capN)
 		fresh := func() CompiledRuleSet[int] { return v09Build(file, capN) }
 		sh := v09Analyse(qs, capN)
@@ -196,6 +198,9 @@ func TestVerifC09_Match(t *testing.T) {
 		}
 		if long {
 			st.Class("file:line>64KiB")
+		}
+		if ln != nil {
+			st.Class("query:long-names-sharing-a-prefix")
 		}
 		nt := sh.repeatEvicted && sh.multiDiff
 		st.Case(nt, v09Abbrev(file)+"\x00"+v09Keys(qs), v09Classes(rules, qs[:len(firsts)], firsts, sh, capN), func() string {
@@ -322,6 +327,18 @@ func TestVerifC09_Grid(t *testing.T) {
 		}, names: []string{"xn--bcher-kva.example", "XN--BCHER-KVA.EXAMPLE", "Xn--Bcher-Kva.Example.", "xN--bcher-kva.example", "bucher.example", "BCHER.example.",
 			"xn--mnchen-3ya.example", "XN--MNCHEN-3YA.EXAMPLE.", "www.Xn--Mnchen-3ya.example", "munchen.example", "xn--fsq.example", "XN--FSQ.EXAMPLE"},
 			v4s: v4s[:2], v6s: v6s[:2], ports: []uint16{53, 80}},
+		// host names longer than 255 bytes that differ only behind a long common prefix
+		{rules: []v09Rule{
+			rl{Ob: "ob1", Kind: v09KSuffix, Dom: "allowed.example", Proto: 0, AnyPort: true, Text: "ob1(suffix:allowed.example)"},
+			rl{Ob: "reject", Kind: v09KSuffix, Dom: "blocked.example", Proto: 0, AnyPort: true, Text: "reject(suffix:blocked.example)"},
+			rl{Ob: "ob2", Kind: v09KWild, Dom: "*.example", Proto: 1, Lo: 80, Hi: 80, Hijack: a("8.8.8.8"), Text: "ob2(*.example, tcp/80, 8.8.8.8)"},
+			rl{Ob: "ob3", Kind: v09KExact, Dom: v09Prefix(256) + ".exact.example", Proto: 0, AnyPort: true, Text: "ob3(" + v09Prefix(256) + ".exact.example)"},
+		}, names: []string{
+			v09Prefix(63) + ".allowed.example", v09Prefix(63) + ".blocked.example", v09Prefix(64) + ".allowed.example", v09Prefix(64) + ".blocked.example",
+			v09Prefix(255) + ".allowed.example", v09Prefix(255) + ".blocked.example", v09Prefix(255) + ".other.example",
+			v09Prefix(256) + ".allowed.example", v09Prefix(256) + ".blocked.example", v09Prefix(256) + ".exact.example", v09Prefix(256) + ".exact.example.org",
+			v09Prefix(300) + ".ALLOWED.example.", v09Prefix(300) + ".blocked.EXAMPLE", v09Prefix(1000) + ".allowed.example", v09Prefix(1000) + ".blocked.example", v09Prefix(1000) + ".example",
+		}, v4s: v4s[:2], v6s: v6s[:2], ports: []uint16{80, 81}},
 		// lines longer than 64 KiB (comment; rule padded with blanks) do not end the rule list
 		{pre: "# " + strings.Repeat("long comment ", 5100) + "\n", rules: []v09Rule{
 			rl{Ob: "ob1", Kind: v09KExact, Dom: "example.com", Proto: 1, Lo: 80, Hi: 80, Text: "ob1(example.com, tcp/80)"},
